@@ -115,7 +115,10 @@ TEXT = {
            "recorded and reported current patch is n after every later call of that process (installs, checks, rollbacks of other patches, the success report, damage "
            "elsewhere) until the launch is reported failed, n is rolled back / re-issued / damaged, the release changes or the process ends; (2) after a restart and "
            "before the next launch start current_boot_patch reports the last good patch (0 if none); (3) a launch start records the patch it selected as booting. "
-           "Invariants RunD (current record + validity of every record of n), BootSub (only a launch start sets the booting record) and the C03 invariants.",
+           "Invariants RunD (current record + validity of every record of n), BootSub (only a launch start sets the booting record) and the C03 invariants. "
+           "Theorems C18_self_run / C18_self_reports (Props/C18Self.lean) cover what that monitor stops at: over any run of calls and outside events other than a launch "
+           "report, an initialisation, a restart, a state reset or a rewrite of the state files - rollbacks, re-installs and artifact damage of the RUNNING patch "
+           "included - the booting record and the configuration are unchanged and current_boot_patch reports the running patch (no validity hypothesis).",
   "design_ref": "DESIGN.md section 4, C18",
   "note": "Lean kernel; model/code correspondence sampled by this run's campaign (updates completing between launch start and success, several installs per run).",
   "technique": "Lean 4 theorem (inductive invariants over all histories) + differential correspondence check",
